@@ -8,8 +8,13 @@ if ! git diff --quiet; then echo "REPO DIRTY, refusing"; exit 2; fi
 if ! git apply --check "$PATCH" 2>/dev/null; then echo "PATCH DOES NOT APPLY: $PATCH"; exit 3; fi
 git apply "$PATCH"
 cd /verif
+LOW=$(echo "$ID" | tr 'A-Z' 'a-z')
+cp -f "evidence/$ID.json" "/verif/harness/target/evidence-$ID.keep" 2>/dev/null
 OUT=$(./check "$ID" --tier "$TIER" 2>&1); RC=$?
-git -C /repo checkout -- . 
+git -C /repo checkout -- .
+# never leave a binary built from the patched tree, nor its evidence, behind
+(cd /verif/harness && CARGO_NET_OFFLINE=true cargo build --release --offline --quiet --bin "cgv-$LOW" 2>/dev/null)
+cp -f "/verif/harness/target/evidence-$ID.keep" "evidence/$ID.json" 2>/dev/null
 echo "$OUT" | grep -E "^VIOLATION|^  clause|^INCONCLUSIVE|^KNOWN|^property=" | head -${LINES_MAX:-4}
 echo "RESULT id=$ID patch=$PATCH exit=$RC"
 exit $RC
